@@ -300,8 +300,9 @@ void op_allocfail(const Case& c, TaskCtx& t, Outcome& o) {
   if (c.has("kfromend"))
     k1 = std::max<long>(0, ap.nalloc - (long)c.i("kfromend"));
   if (t.stats && c.i("kexact", 0)) {
-    t.stats->hit("c18.enumerated." + std::string(p.name) + "." + target);
-    t.stats->gauge("c18.allocations." + std::string(p.name) + "." + target, ap.nalloc);
+    std::string key = std::string(p.name) + "." + target + (c.has("vfield") ? ":" + c.s("vfield") : "");
+    t.stats->hit("c18.enumerated." + key);
+    t.stats->gauge("c18.allocations." + key, ap.nalloc);
   }
   fflush(stdout);
   fflush(stderr);
